@@ -105,6 +105,8 @@ def main():
     opts = {'verbose': True}
     if os.environ.get('UNWIND'):
         opts['unwind'] = int(os.environ['UNWIND'])
+    if os.environ.get('FEASAX'):
+        opts['feas_axioms'] = True
     if os.environ.get('CCLOCK'):
         opts['concrete_clock'] = True
     if os.environ.get('HASHINJ'):
